@@ -1278,3 +1278,30 @@ package zygo
 //@ ghost items := ret0 @after call ListToArray[0]
 //@ C15 ensures one-for-many: r0 == nil ==> env.datastack.tos == old(env.datastack.tos) - 1 + len(items) && env.pc == old(env.pc) + 1
 //@ C15 loop 0 invariant shape: env.datastack == old(env.datastack) && wfs(env.datastack) && 0 - 1 <= rangeindex && rangeindex < len(arr) && env.pc == old(env.pc) && env.datastack.tos == old(env.datastack.tos) - 1 + rangeindex + 1 && old(env.datastack.tos) >= 0
+
+// The compile-time scope count tracks the scopes the emitted code has open: wherever a
+// sub-form is compiled, gen.scopes is the count at entry plus the AddScope instructions
+// emitted so far minus the RemoveScope ones, and a form leaves the count as it found it.
+// (break, continue and tail self-calls compute how many scopes to pop from this count.)
+//@ clauseall \(\*Generator\)\.(Generate[A-Za-z]*|generateSyntaxQuote[A-Za-z]*) :: assume ensures keeps-own-scopes: r0 == nil ==> gen.scopes == old(gen.scopes)
+//@ func (*Generator).GenerateLet
+//@ ghost opened := 0 @entry
+//@ ghost opened := opened + ite(typeis(arg1, AddScopeInstr), 1, 0) - ite(typeis(arg1, RemoveScopeInstr), 1, 0) @after call AddInstruction[*]
+//@ C02,C04,C09 assert scope-count-tracks-open-scopes @before call Generate[*]: arg0 == gen && gen.scopes == old(gen.scopes) + opened && opened == 1
+//@ C02,C04,C09 assert scope-count-tracks-open-scopes @before call GenerateBegin[*]: arg0 == gen && gen.scopes == old(gen.scopes) + opened && opened == 1
+//@ C02,C04,C09 ensures scope-count-balanced: r0 == nil ==> gen.scopes == old(gen.scopes) && opened == 0
+//@ C02,C04,C09 loop 1 invariant gen.scopes == old(gen.scopes) + 1 && opened == 1
+//@ C02,C04,C09 loop 2 invariant gen.scopes == old(gen.scopes) + 1 && opened == 1
+//@ C02,C04,C09 loop 3 invariant gen.scopes == old(gen.scopes) + 1 && opened == 1
+//@ func (*Generator).GenerateNewScope
+//@ ghost opened := 0 @entry
+//@ ghost opened := opened + ite(typeis(arg1, AddScopeInstr), 1, 0) - ite(typeis(arg1, RemoveScopeInstr), 1, 0) @after call AddInstruction[*]
+//@ C02,C04,C09 assert scope-count-tracks-open-scopes @before call Generate[*]: arg0 == gen && gen.scopes == old(gen.scopes) + opened && opened == 1
+//@ C02,C04,C09 ensures scope-count-balanced: r0 == nil ==> gen.scopes == old(gen.scopes) && opened == 0
+//@ C02,C04,C09 loop 0 invariant gen.scopes == old(gen.scopes) + 1 && opened == 1
+//@ func (*Generator).GenerateForLoop
+//@ ghost opened := 0 @entry
+//@ ghost opened := opened + ite(arg0 == gen && typeis(arg1, AddScopeInstr), 1, 0) - ite(arg0 == gen && typeis(arg1, RemoveScopeInstr), 1, 0) @after call AddInstruction[*]
+//@ C02,C04,C09 assert scope-count-tracks-open-scopes @before call Generate[*]: arg0 != gen && arg0.scopes == old(gen.scopes) + opened && opened == 1 && !arg0.Tail && arg0.funcname == gen.funcname
+//@ C02,C04,C09 assert scope-count-tracks-open-scopes @before call GenerateBegin[*]: arg0 != gen && arg0.scopes == old(gen.scopes) + opened && opened == 1 && !arg0.Tail && arg0.funcname == gen.funcname
+//@ C02,C04,C09 ensures scope-count-balanced: r0 == nil ==> gen.scopes == old(gen.scopes) && opened == 0
